@@ -417,6 +417,15 @@ fn lowercase_in_place(s: &mut SmallString) {
     }
 }
 
+/// Check whether converting `c` to lowercase leaves it unchanged.
+fn is_own_lowercase(c: char) -> bool {
+    if c.is_ascii() {
+        return !c.is_ascii_uppercase();
+    }
+    let mut lower = c.to_lowercase();
+    lower.next() == Some(c) && lower.next().is_none()
+}
+
 /// Try to convert a `&str` to a lowercase `SmallString` without allocating.
 fn copy_as_lowercase(s: &str) -> SmallString {
     enum State {
@@ -426,7 +435,9 @@ fn copy_as_lowercase(s: &str) -> SmallString {
     }
     let mut state = State::Lower;
     for c in s.chars() {
-        if c.is_uppercase() {
+        // Not `is_uppercase()`: titlecase letters such as 'ǅ' are not uppercase but
+        // still have a lowercase mapping.
+        if !is_own_lowercase(c) {
             if c.is_ascii() {
                 state = State::MixedAscii;
             } else {
